@@ -401,10 +401,13 @@ fn read_cleartext_body<B: BufRead>(b: &mut B) -> Result<(String, String)> {
             return Ok(("".to_string(), out));
         }
 
-        // Look for header start in the last line
-        if let Some(pos) = out.rfind("\n-----") {
+        // Look for header start in the last line (only there: earlier lines have been looked
+        // at when they were read, and searching the whole text again for every line is
+        // quadratic in the number of lines)
+        let line_start = out.len() - read;
+        if line_start > 0 && out[line_start..].starts_with("-----") {
             // found our end
-            let rest = out.split_off(pos + 1);
+            let rest = out.split_off(line_start);
 
             // remove trailing line break
             if out.ends_with("\r\n") {
